@@ -42,8 +42,8 @@ ASSUMPTIONS = [
 ]
 MIN_COUNTERS = {
     "quick": {
-        "files_equal": 80,
-        "nodes_lineno_compared": 100000,
+        "files_equal": 60,
+        "nodes_lineno_compared": 80000,
         "embedded_block_items_equal": 300,
         "embedded_expr_items_equal": 300,
         "rewrites_lifted": 50,
@@ -82,7 +82,7 @@ DENSE = [
 ]
 
 SIZE_BUCKETS = (2_000, 8_000, 24_000, 60_000)
-QUICK_QUOTA = {"stdlib": (16, 20, 20, 7), "usrlib": (5, 8, 8, 2), "site": (18, 22, 22, 8)}
+QUICK_QUOTA = {"stdlib": (12, 16, 16, 6), "usrlib": (4, 6, 6, 2), "site": (14, 18, 18, 6)}
 THOROUGH_BYTES = 30_000_000
 THOROUGH_MAX_FILE = 300_000
 BLOCK_CONTEXTS = ("behavior", "monitor", "setup", "compose")
@@ -721,10 +721,11 @@ def check_file(path, rng, res, tier, budget):
         res["violations"].append({"key": key, "what": f"[{context}] {rel}: {what}"[:500] + (f" | input: {shown!r}" if shown else ""), "witness": w})
         return True
 
-    def account(o):
+    def account(o, columns=True):
         bump("nodes_lineno_compared", o.nodes)
         bump("end_lineno_mismatches_info", o.endbad)
-        bump("col_offset_mismatches_info", o.colbad)
+        if columns:  # (columns are shifted by construction in the expression contexts)
+            bump("col_offset_mismatches_info", o.colbad)
         for k, v in o.rewrites.items():
             bump("rewrites_" + k, v)
         res["_types"].update(o.types)
@@ -837,7 +838,7 @@ def check_file(path, rng, res, tier, budget):
         if o.status == "equal":
             bump("embedded_expr_items_equal", len(exprs))
             bump("embedded_" + context + "_equal", len(exprs))
-            account(o)
+            account(o, columns=False)
             continue
         for e in exprs:
             sc1, py1 = expr_program(context, [e])
@@ -849,7 +850,7 @@ def check_file(path, rng, res, tier, budget):
             if o1.status == "equal":
                 bump("embedded_expr_items_equal")
                 bump("embedded_" + context + "_equal")
-                account(o1)
+                account(o1, columns=False)
             else:
                 bump("embedded_" + context + "_" + o1.status)
                 report(o1, py1, ast.parse(py1), context, snippet=sc1, extra_text=e, twin=py1)
@@ -891,10 +892,11 @@ def check_synthetic(rng, res, part, nparts):
             w["python"] = twin
         res["violations"].append({"key": key, "what": f"[{context}] synthetic corpus: {what} | input: {snippet.strip()[:200]!r}", "witness": w})
 
-    def account(o):
+    def account(o, columns=True):
         bump("nodes_lineno_compared", o.nodes)
         bump("end_lineno_mismatches_info", o.endbad)
-        bump("col_offset_mismatches_info", o.colbad)
+        if columns:  # (columns are shifted by construction in the expression contexts)
+            bump("col_offset_mismatches_info", o.colbad)
         for k, v in o.rewrites.items():
             bump("rewrites_" + k, v)
         res["_types"].update(o.types)
@@ -954,7 +956,7 @@ def check_synthetic(rng, res, part, nparts):
             if o.status == "equal":
                 bump("synthetic_embedded_equal")
                 bump("embedded_expr_items_equal")
-                account(o)
+                account(o, columns=False)
             else:
                 bump("synthetic_embedded_" + o.status)
                 report(o, py, context, sc, twin=py, extra_text=e)
